@@ -314,7 +314,7 @@ func main() {
 	c.Res.Explanation = "Graph menu: sequential pipelines of nesting depth <=2 (quick) / <=3 (thorough) built with Graph, Chain and Workflow from lambdas with option types optX / optY, plain lambdas, " +
 		"a fake chat model, a tools node with a recording tool, passthrough nodes and nested graphs, node keys reused across levels. Option menu per graph: for each of the 5 option types (lambda X, lambda Y, chat model, " +
 		"tools node, callbacks) the undesignated option, the option designated to every node path at every depth (length-1 paths via DesignateNode), to every unknown key at every graph level " +
-		"(includes inner keys designated by key only and keys of sibling sub-graphs), to paths below every non-graph node, to all pairs of accepting targets and to (accepting target, unknown node); " +
+		"(includes inner keys designated by key only and keys of sibling sub-graphs), to paths below every non-graph node, to all ordered pairs of accepting targets and to (accepting target, unknown node) in both orders; " +
 		"in the quick tier the paths that resolve to no node carry three of the five option types (lambda X, tools node, callbacks = the three Option constructors) and one path below each non-graph node, the thorough tier all five and two. " +
 		"All multisets of <=3 menu options are enumerated. Oracle from the statement: the call errors iff the model calls a designation invalid; per node the multiset of received payload tags equals the model's; " +
 		"designated handlers fire at their node and nowhere outside it (inside a designated graph node / tools node they may fire); nothing of another call is ever observed."
